@@ -3,6 +3,14 @@ from . import tables as T
 from .ctx import Ctx
 
 SCOPES = {
+    'C19': ['src/SphericalEngine.cpp', 'src/CircularEngine.cpp', 'GeographicLib/SphericalEngine.hpp',
+            'GeographicLib/CircularEngine.hpp', 'GeographicLib/SphericalHarmonic.hpp', 'GeographicLib/SphericalHarmonic1.hpp',
+            'GeographicLib/SphericalHarmonic2.hpp', 'src/MagneticModel.cpp', 'src/MagneticCircle.cpp',
+            'src/GravityModel.cpp', 'src/GravityCircle.cpp', 'src/NormalGravity.cpp', 'GeographicLib/MagneticModel.hpp',
+            'GeographicLib/MagneticCircle.hpp', 'GeographicLib/GravityModel.hpp', 'GeographicLib/GravityCircle.hpp',
+            'GeographicLib/NormalGravity.hpp'],
+    'C11': ['src/PolarStereographic.cpp', 'GeographicLib/PolarStereographic.hpp', 'src/LambertConformalConic.cpp',
+            'GeographicLib/LambertConformalConic.hpp', 'src/AlbersEqualArea.cpp', 'GeographicLib/AlbersEqualArea.hpp'],
     'C04': ['src/UTMUPS.cpp', 'GeographicLib/UTMUPS.hpp'],
     'C05': ['src/MGRS.cpp', 'GeographicLib/MGRS.hpp'],
     'C10': ['src/DMS.cpp', 'GeographicLib/DMS.hpp', 'src/Utility.cpp', 'GeographicLib/Utility.hpp',
@@ -14,6 +22,8 @@ SCOPES = {
 }
 # instance floors (about 80% of the counts confirmed on the verified tree)
 FLOORS = {
+    'C19': dict(throws=45, x3fns=40, x4throws=0),
+    'C11': dict(throws=20, x3fns=8, x4throws=0),
     'C04': dict(throws=14, x3fns=5, x4throws=7),
     'C05': dict(throws=25, x3fns=3, x4throws=2),
     'C10': dict(throws=20, x3fns=7, x4throws=0),
@@ -284,6 +294,40 @@ def _c17(ctx):
     return [r] + nn + [r6, x3m]
 
 
+C11_CLASSES = [NSP + c for c in ('PolarStereographic', 'LambertConformalConic', 'AlbersEqualArea')]
+
+
+def _c11(ctx):
+    from .rules import parity, derived, exc
+    s2, nf, no = parity.rule_S2(ctx, C11_CLASSES)
+    s2.floor('Forward/Reverse bodies', nf, 6)
+    s2.floor('outputs', no, 24)
+    d1, ns, nd = derived.rule_D1(ctx, C11_CLASSES)
+    d1.floor('setters', ns, 3)
+    d1.floor('member dependences read from the constructors', nd, 60)
+    x5, n5 = exc.rule_X5(ctx, set(C11_CLASSES))
+    x5.floor('validating constructors and setters', n5, 9)
+    return [s2, d1, x5] + _exc_rules(ctx, 'C11', with_lookup=False)
+
+
+C19_CLASSES = {NSP + c for c in ('SphericalEngine', 'CircularEngine', 'SphericalHarmonic', 'SphericalHarmonic1',
+                                  'SphericalHarmonic2', 'MagneticModel', 'MagneticCircle', 'GravityModel', 'GravityCircle',
+                                  'NormalGravity')}
+
+
+def _c19(ctx):
+    from .rules import dispatch, indep, exc
+    dsp, ncase, ncalls = dispatch.rule_DSP(ctx, SCOPES['C19'])
+    dsp.floor('enumerator template arguments inside case regions', ncase, 20)
+    dsp.floor('SphericalEngine::Value/Circle instantiations', ncalls, 20)
+    i1, nflags, nreg = indep.rule_I1(ctx, C19_CLASSES)
+    i1.floor('request flags', nflags, 3)
+    i1.floor('guarded regions', nreg, 4)
+    r6, n6 = exc.rule_X6(ctx, SCOPES['C19'])
+    r6.floor('loops', n6, 40)
+    return [dsp, i1] + _exc_rules(ctx, 'C19', with_lookup=False) + [r6]
+
+
 def _c20(ctx):
     from .rules import cache, eff, exc
     k = cache.rule_K(ctx)
@@ -315,6 +359,8 @@ CHECKS = {
     'C14': _c14,
     'C18': _c18,
     'C20': _c20,
+    'C11': _c11,
+    'C19': _c19,
 }
 
 
